@@ -2,7 +2,7 @@
     with TreeDen/EnvDen the emitted TypeScript type admits exactly Ref_local (hence every Execute_spec
     response, by Proofs.exec_in_ref_local). *)
 From V Require Import Base.Util Gql.Ast Writer.Wop Ts.TsType Ts.TsDen
-     C01.Model C01.Spec C01.TsLemmas C01.TreeDen C01.Proofs C01.EnvDen C01.PlainBase C01.PlainCore
+     C01.Model C01.Spec C01.Guards C01.TsLemmas C01.TreeDen C01.Proofs C01.EnvDen C01.PlainBase C01.PlainCore
      C01.PlainMain C01.PlainSchema.
 From Coq Require Import Wf_nat.
 
